@@ -710,6 +710,17 @@ func checkC06(h *XHistory) {
 	}
 }
 
+// onlyGracefulEvents: every server event of the run is a close of idle
+// connections, which a QUIC peer is told about at once.
+func onlyGracefulEvents(h *XHistory) bool {
+	for _, e := range h.XP.ServerEvents {
+		if e.Kind != "close_idle_conns" {
+			return false
+		}
+	}
+	return true
+}
+
 func eventIn(h *XHistory, up int, from, to time.Duration) bool {
 	// a QUIC peer that crashed silently is only noticed when the connection's
 	// idle time-out (30 s) expires; nothing promises an earlier recovery
@@ -718,8 +729,12 @@ func eventIn(h *XHistory, up int, from, to time.Duration) bool {
 		before = 35 * time.Second
 	}
 	for _, e := range h.Events {
+		b := before
+		if e.Kind == "close_idle_conns" {
+			b = time.Second // a graceful close is known to the peer at once, also over QUIC
+		}
 		// (a "down" event lasts: the server is back DownMs later)
-		if e.Up == up && us(e.AtUs)+time.Duration(e.DownMs)*time.Millisecond >= from-before && us(e.AtUs) <= to+time.Second {
+		if e.Up == up && us(e.AtUs)+time.Duration(e.DownMs)*time.Millisecond >= from-b && us(e.AtUs) <= to+time.Second {
 			return true
 		}
 	}
@@ -813,7 +828,7 @@ func checkC14(h *XHistory) {
 					open++
 				}
 			}
-			healthy = (healthy || others && allActs(t, replyAct)) && open < lim && !faulty && !closedAny && !slowForIdle && !eventIn(h, c.C.Up, 0, c.End) && c.Limit >= delay+2*time.Second+sigma && c.C.CancelUs == 0 && h.XP.IdleMs == 0 && len(h.XP.ServerEvents) == 0
+			healthy = (healthy || others && allActs(t, replyAct)) && open < lim && !faulty && !closedAny && !slowForIdle && !eventIn(h, c.C.Up, c.Start, c.End) && c.Limit >= delay+2*time.Second+sigma && c.C.CancelUs == 0 && h.XP.IdleMs == 0 && onlyGracefulEvents(h)
 		}
 		if healthy {
 			s.Probe("c14_liveness_checked")
